@@ -600,7 +600,11 @@ class Exec(Ops):
     m = self.empty_map(hint)
     for k, v in zip(n.keys, n.values):
       if k is None:
-        raise OutsideSubset('dict ** unpacking')
+        src = self.deref(self.eval(v, env))   # {**other, ...}: starts from a copy of `other` (only as the first entry)
+        if not (isinstance(src, SV) and isinstance(src.sort, MapOf) and src.sort.name == hint.name and k is n.keys[0]):
+          raise OutsideSubset('dict ** unpacking (only `{**mapping, ...}` with the mapping first is modelled)')
+        m = SV(hint, src.t)
+        continue
       m = self.map_set(m, self.eval(k, env), self.eval(v, env))
     return self.new_box(m)
 
